@@ -606,17 +606,17 @@ func jObjectShape(src []byte) (string, bool) {
 	for _, p := range obj.List {
 		if m, ok := p.Value.(*js.MethodDecl); ok {
 			out += "method(" + string(rune('0'+vB2I(m.Async))) + string(rune('0'+vB2I(m.Generator))) + string(rune('0'+vB2I(m.Get))) + string(rune('0'+vB2I(m.Set))) + ")" + name(m.Name) + ";"
-		} else if p.Name != nil {
+		} else if p.Name != nil && !(name(*p.Name) == jShape(p.Value) && name(*p.Name) != "__proto__") {
 			out += "prop:" + name(*p.Name) + "=" + jShape(p.Value) + ";"
 		} else {
-			out += "short:" + jShape(p.Value) + ";"
+			out += "short:" + jShape(p.Value) + ";" // {a:a} and {a} are the same member, except for __proto__
 		}
 	}
 	return out, true
 }
 
 var jObjMods = []string{"", "get ", "set ", "async ", "*", "async *"}
-var jObjNames = []string{"a", "1", "\"s\"", "[b]", "get", "set", "static", "async", "0x10", "1.5", "\"a-b\"", "\"b\"", "1e3", "\"get\""}
+var jObjNames = []string{"__proto__", "a", "1", "\"s\"", "[b]", "get", "set", "static", "async", "0x10", "1.5", "\"a-b\"", "\"b\"", "1e3", "\"get\""}
 
 // VerifJSObjectMembers (C01/C09): x={M1,M2} with each member a property or a method under 6 modifier forms and 14 name
 // forms: the output has members of the same kind and name (canonical numeric keys aside, see VerifJSObjectKey).
@@ -636,7 +636,11 @@ func VerifJSObjectMembers(n int) {
 			src = append(src, mod+nm+"("+arg+"){}"...)
 		} else {
 			vAssume(mod == "")
-			src = append(src, nm+":c"...)
+			val := "c"
+			if vBool("same"+string(rune('0'+i))) && (nm == "a" || nm == "get" || nm == "async" || nm == "__proto__") {
+				val = nm // {a:a} may become the shorthand {a}; {__proto__:__proto__} may not: the shorthand creates an own property
+			}
+			src = append(src, nm+":"+val...)
 		}
 	}
 	src = append(src, "};"...)
@@ -647,6 +651,9 @@ func VerifJSObjectMembers(n int) {
 	vReach("after-call")
 	vOutput("out", w.buf)
 	vAssert(err == nil, "accepted")
+	if jHasIdent(src, "__proto__:__proto__") {
+		vAssert(jHasIdent(w.buf, "__proto__:__proto__"), "{__proto__:__proto__} sets the prototype, the shorthand {__proto__} would create an own property: "+string(w.buf))
+	}
 	got, ok2 := jObjectShape(append([]byte(nil), w.buf...))
 	vAssert(ok2, "output parses to x={...}")
 	vAssert(got == want, "same members: "+string(src)+" => "+string(w.buf))
